@@ -183,7 +183,7 @@ func mOnceDo(f *frame, args []Val, c *ssa.CallCommon, pos string) Val {
 		f.cur, f.st = skipped, saveSt
 		return Val{T: types.NewTuple()}
 	}
-	f.st = x.mergeStates([]edgeIn{{nil, ran, f.st}, {nil, skipped, saveSt}})
+	f.st = x.mergeStates([]edgeIn{{cond: ran, st: f.st}, {cond: skipped, st: saveSt}})
 	f.cur = x.vc.Def("once", "Bool", Or(ran, skipped))
 	return Val{T: types.NewTuple()}
 }
